@@ -46,6 +46,7 @@ type frame struct {
 	panicking bool
 	panicV    interface{}
 	symIter   map[*ssa.BasicBlock]int
+	visits    map[*ssa.BasicBlock]int // block entries in this activation (vp.NoSpin)
 	skipPhis  bool
 }
 
@@ -115,6 +116,7 @@ type Exec struct {
 	poolMode    int
 	oracleArg   map[string]Value
 	oracleArgs  map[string][]Value
+	spinLimit   int
 	digestLog   []digestRec
 	strAliases  []strAlias // strings made by unsafe.String: views of mutable byte cells // every value recorded under a name (e.g. keys of successful RSA verifications)
 	replacers   map[*Value][][2]*StrV
@@ -464,6 +466,19 @@ func (fr *frame) run() {
 			}
 			for i := 0; i < nphi; i++ {
 				fr.env[instrs[i].(*ssa.Phi)] = tmp[i]
+			}
+		}
+		if e.spinLimit > 0 && e.inMerge == 0 && !isHarnessFn(fr.fn) {
+			// vp.NoSpin(n): the harness declares that, on its bounded input, no
+			// loop of the code under test legitimately runs more than n times
+			if fr.visits == nil {
+				fr.visits = map[*ssa.BasicBlock]int{}
+			}
+			fr.visits[fr.block]++
+			if fr.visits[fr.block] > e.spinLimit {
+				e.needModel()
+				e.recordViolation("spin", "no-spin", fmt.Sprintf("block %s of %s entered more than %d times in one call", fr.block.Comment, fr.fn, e.spinLimit), e.model)
+				e.endPath("spin", "loop without progress in "+fr.fn.String())
 			}
 		}
 		e.steps += int64(len(instrs))
@@ -1173,4 +1188,13 @@ func (e *Exec) resyncStrAliases() {
 			}
 		}
 	}
+}
+
+func isHarnessFn(fn *ssa.Function) bool {
+	n := fn.Name()
+	for fn.Parent() != nil {
+		fn = fn.Parent()
+		n = fn.Name()
+	}
+	return strings.HasPrefix(n, "VP_") || strings.HasPrefix(n, "vp")
 }
